@@ -13,14 +13,17 @@ from fractions import Fraction
 from harness.common import sx
 from harness.props import c09 as B
 
-KINDS = ["classic", "bm25", "legacy", "default", "user_tf", "user_tfnorm"]
+KINDS = ["classic", "bm25", "legacy", "default", "user_tf", "user_tfnorm", "user_bool", "user_int", "user_i8", "user_f32"]
 
 
 # ------------------------------------------------------------------------------------------------
 # generator
 # ------------------------------------------------------------------------------------------------
 def _one_sim(rng):
-    k = rng.choice(["classic", "classic", "bm25", "bm25", "legacy", "default", "user_tf", "user_tfnorm"])
+    # user-defined similarities return arrays of several dtypes (bool / int64 / int8 / float32 / float64): edismax must
+    # combine their VALUES, whatever the dtype
+    k = rng.choice(["classic", "classic", "bm25", "bm25", "legacy", "default", "user_tf", "user_tfnorm",
+                    "user_bool", "user_bool", "user_int", "user_i8", "user_f32"])
     if k == "bm25":
         return ["bm25", rng.choice([0.0, 0.5, 0.9, 1.6, 2.0]), rng.choice([0.0, 0.3, 0.5, 1.0])]
     if k == "legacy":
@@ -82,6 +85,22 @@ def make_sim(spec):
         def tf_norm(term_freqs, doc_freqs, doc_lens, avg_doc_lens, num_docs):
             return term_freqs / (1 + doc_lens)
         return tf_norm
+    if k == "user_bool":
+        def matches(term_freqs, doc_freqs, doc_lens, avg_doc_lens, num_docs):
+            return term_freqs > 0
+        return matches
+    if k == "user_int":
+        def tf_int(term_freqs, doc_freqs, doc_lens, avg_doc_lens, num_docs):
+            return np.asarray(term_freqs).astype(np.int64)
+        return tf_int
+    if k == "user_i8":
+        def tf_i8(term_freqs, doc_freqs, doc_lens, avg_doc_lens, num_docs):
+            return np.minimum(np.asarray(term_freqs), 3).astype(np.int8)
+        return tf_i8
+    if k == "user_f32":
+        def tf_f32(term_freqs, doc_freqs, doc_lens, avg_doc_lens, num_docs):
+            return (np.asarray(term_freqs) * 0.5).astype(np.float32)
+        return tf_f32
     raise ValueError(f"unknown similarity {spec}")
 
 
